@@ -578,14 +578,14 @@ fn probe_readers(mut ev: EvReaders, er: EntReaders, ents: &bevy::ecs::entity::En
 thread_local! { static PROBE_TAKEN: RefCell<Vec<Payload>> = RefCell::new(Vec::new()); }
 thread_local! { static BODIES: std::cell::Cell<u32> = std::cell::Cell::new(0); }
 
-/// Counts the bodies of a scenario. No generated scenario runs more than a few hundred bodies (every instance executes
+/// Counts the bodies of a scenario. No generated scenario runs more than about 1500 bodies (every instance executes
 /// each of its scripts once); beyond the cap the scripts are skipped so that an implementation which re-creates system
 /// state (and therefore re-runs first scripts forever) ends in a reportable trace instead of a stack overflow.
 fn runaway() -> bool
 {
     let n = BODIES.with(|b| { b.set(b.get() + 1); b.get() });
-    if n == 400 { log("runaway".into()); }
-    n >= 400
+    if n == 2500 { log("runaway".into()); }
+    n >= 2500
 }
 
 /// An exclusive scripted system: samples the readers through a `Commands`-free nested syscall and queues its
